@@ -22,6 +22,9 @@ def parseCCmd (s : String) : Option Cmd :=
     | _ => none
   | ['G'] => some .register
   | ['O'] => some .rotate
+  | ['C'] => some .gc
+  | ['X'] => some .close
+  | 'I' :: r => ((String.ofList r).splitOn ";").mapM parseCItem |>.map Cmd.ingest
   | _ => none
 
 def parseProg (s : String) : Option (List Cmd) :=
@@ -46,9 +49,9 @@ def showState (s : State) (t : Tid) : String :=
   let fl := match s.floor with | some f => toString f | none => "none"
   let (vw, ph, left) := match s.threads[t]? with
     | some th => ((match th.view with | some i => toString i | none => "none"),
-        (match th.phase with | .idle => "idle" | .sLoaded _ => "loaded" | .gDrawn _ => "gdrawn"), th.prog.length)
+        (match th.phase with | .idle => "idle" | .sLoaded _ => "loaded" | .gDrawn _ => "gdrawn" | .needGc => "needgc"), th.prog.length)
     | none => ("none", "none", 0)
-  s!"c={s.counter} v={s.visible} f={fl} l={lk} view={vw} phase={ph} left={left} obs={lastObs s} top={lastTop s} nobs={s.obs.length}"
+  s!"c={s.counter} v={s.visible} f={fl} l={lk} wm={s.wm} view={vw} phase={ph} left={left} obs={lastObs s} top={lastTop s} nobs={s.obs.length}"
 
 structure ConcSession where
   st : State := {}
@@ -56,11 +59,11 @@ structure ConcSession where
 
 def concCmd (c : ConcSession) (ws : List String) : Option (ConcSession × String) :=
   match ws with
-  | ["conc.init", counter, visible, floorMode, progs] =>
-    match counter.toNat?, visible.toNat?, (progs.splitOn "|").mapM parseProg with
-    | some cn, some v, some ps =>
-      some ({ st := { init ps with counter := cn, visible := v }, cfg := { useFloor := floorMode != "nofloor" } }, "ok")
-    | _, _, _ => some (c, "bad-op")
+  | ["conc.init", counter, visible, wm, floorMode, progs] =>
+    match counter.toNat?, visible.toNat?, wm.toNat?, (progs.splitOn "|").mapM parseProg with
+    | some cn, some v, some w, some ps =>
+      some ({ st := { init ps with counter := cn, visible := v, wm := w }, cfg := { useFloor := floorMode != "nofloor" } }, "ok")
+    | _, _, _, _ => some (c, "bad-op")
   | ["conc.step", t] =>
     match t.toNat? with
     | some t =>
